@@ -68,11 +68,11 @@ def shards(tier):
     if tier == "thorough":
         stacks = ("client", "pooled1", "pooled2", "hash1", "hash2", "hash1p")
         oplist = ("set", "add", "cas", "set_many", "get", "gets", "get_many", "gets_many", "gat", "delete", "delete_many",
-                  "incr", "touch", "flush_all", "stats")
+                  "incr", "touch", "flush_all", "stats", "quit")
         follow = ("get", "gets", "set", "delete_many", "incr", "get_many")
     else:
         stacks = ("client", "pooled1", "pooled2", "hash1p")
-        oplist = ("set", "set_many", "get", "get_many", "delete_many", "incr")
+        oplist = ("set", "set_many", "get", "get_many", "delete_many", "incr", "quit")
         follow = ("get", "set")
     for st in stacks:
         for op in oplist:
